@@ -55,7 +55,7 @@ def cases(draw, tier):
         "kind": kind,
         "base": spec,
         "nattr": draw(st.lists(st.tuples(st.integers(0, 6), st.integers(-1, 3)).map(list), max_size=4)),
-        "eattr": draw(st.lists(st.tuples(st.integers(0, 6), st.integers(-1, 3), st.sampled_from([0.5, 1, 2, 3])).map(list), max_size=4)),
+        "eattr": draw(st.lists(st.tuples(st.integers(0, 6), st.integers(-1, 3), st.sampled_from([0, 0.0, 0.5, 1, 2, 3, -1])).map(list), max_size=4)),  # weights incl. 0 and a negative one
         "args": {"order": draw(st.integers(0, 3)), "degree": draw(st.integers(0, 3)), "missing": draw(st.sampled_from([None, 0, 7])),
                  "s": draw(st.integers(1, 3))},
         "filter": {"val": draw(st.integers(0, 3)), "hi": draw(st.integers(0, 4)), "mode": draw(st.sampled_from(MODES))},
@@ -97,10 +97,10 @@ def mode_arg(mode, val, hi):
 
 
 def pandas_keeps(ids):
-    """pandas turns an index that mixes floats with ints into float64: an int beyond 2**53 next to a float label is rounded
+    """pandas turns an index that mixes floats (or complex numbers) with ints into float64 (complex128): an int beyond 2**53 next to a float label is rounded
     by pandas itself (9007199254740993 -> 9007199254740992.0); such an index is compared by length only"""
     big = any(isinstance(x, int) and not isinstance(x, bool) and abs(x) > 2**53 for x in ids)
-    return not (big and any(isinstance(x, float) for x in ids))
+    return not (big and any(isinstance(x, (float, complex)) for x in ids))
 
 
 def check_stat(ctx, label, stat, view_ids, numeric=True):
@@ -313,6 +313,12 @@ def verify(ctx, H, cls, held, case, prev_nodes, prev_edges, edges_reordered):
     ctx.check(got == [n for n in nodes if cmp_mode(mode, ne["degree"][n], val, hi)], ("filterby", "nodes.degree", mode), lambda: "%r" % (got,))
     got = list(nv.filterby(held.nstats["degree(order)"], v, mo))
     ctx.check(got == [n for n in nodes if cmp_mode(mode, ne["degree(order)"][n], val, hi)], ("filterby", "nodes.degree(order)-stat-object", mode), lambda: "%r" % (got,))
+    if cls != "DH":
+        o_ = args["order"]
+        # a stat object built with a *positional* argument (the documented form of e.g. attrs("c"))
+        got = list(nv.filterby(nv.degree(o_), v, mo))
+        want = [n for n in nodes if cmp_mode(mode, ne["degree(order)"][n], val, hi)]
+        ctx.check(got == want, ("filterby", "nodes.degree(order)-positional-stat-object", mode), lambda: "%r vs %r" % (got, want))
     got = list(ev.filterby("size", v, mo))
     ctx.check(got == [e for e in edges if cmp_mode(mode, ee["size"][e], val, hi)], ("filterby", "edges.size", mode), lambda: "%r" % (got,))
     got = list(ev.filterby("order", v, mo))
